@@ -121,6 +121,7 @@ class Engine:
         s._method_index = None
         s._resolve_cache = {}
         s._promoted = {}
+        s.split_by_steps = set()    # fn names of split loops whose states also stay apart per number of iterations done
         s.split_loops = {}          # fn name -> debug name of a local: interpreter loops (fetch / execute over a line counter) are explored per
                                     # concrete value of that local instead of merging all arrivals at the loop header (states at the same value merge)
         s.loop_entry_hooks = {}     # fn name -> callback(engine, fn, info, L, state, fid) at the first arrival at a loop header
@@ -757,10 +758,14 @@ class Engine:
                 m2 = dict(st1.m); m2[(fid, idx)] = lv
                 out.append((lv, State(g, m2)))
             return out
+        by_steps = fn.name in s.split_by_steps          # keep states of different iteration counts apart (no merging across loop passes)
         work = {}
-        for key, st1 in parts(st): work[key] = (st1, 0)
+        for key, st1 in parts(st): work[(key, 0) if by_steps else key] = (st1, 0)
+        def order(k_):
+            ln = k_[0] if by_steps else k_
+            return (ln is None, ln if ln is not None else 0, k_[1] if by_steps else 0)
         while work:
-            key = min(work, key=lambda k_: (k_ is None, k_ if k_ is not None else 0))
+            key = min(work, key=order)
             cur, k = work.pop(key)
             if k > bound:
                 s.obligations.append(Obligation(cur.g, False, 'unwinding bound %d exceeded in %s loop bb%d' % (bound, fn.name, L), 'unwind', fn.name)); continue
@@ -769,6 +774,7 @@ class Engine:
             for b in (backs or []):
                 if b.g is False or not s.feasible(b.g): continue
                 for key2, st2 in parts(b):
+                    if by_steps: key2 = (key2, k + 1)
                     old = work.get(key2)
                     work[key2] = (merge_states(st2, old[0]), max(k + 1, old[1])) if old else (st2, k + 1)
         return all_exits
